@@ -34,7 +34,8 @@ PROPERTY = 'C18'
 LEVEL = 'exploration'
 RULE = (
     'Hypothesis generates (tree options, root spelling, list of query descriptors); a query is a list of symbolic '
-    'segments (.., ., empty, names inside the root, sibling names that extend the root name, the root name, '
+    'segments (.., ., empty, names inside the root, sibling names that extend the root name, the root name, for root '
+    'names with shell-pattern characters a sibling whose name the root name matches as a pattern, '
     'absolute prefixes of scratch/base/root/siblings) joined by /, \\ or a mix, with optional leading/trailing '
     'separators, run through `in`, [], open_bin, open_str and walk_folder of a constrained RawFileSystem, directly '
     'and through FileSystemChain with a subfolder prefix; each case also carries a history: 0-2 twin filesystems on the '
@@ -46,7 +47,8 @@ RULE = (
 ASSUMPTIONS = [
     'no symbolic links anywhere in the scratch tree (not in the statement); POSIX host with a case-sensitive file '
     'system (directories whose names differ from the root only in letter case are different directories)',
-    'file and folder names are ASCII without NUL; some in-root names contain backslashes on disk (walk_folder reports '
+    'file and folder names are ASCII without NUL; root names may contain the characters [ ] ? * and spaces (legal '
+    'in directory names on POSIX; they are names, not patterns); some in-root names contain backslashes on disk (walk_folder reports '
     'them with / instead); a handle so named may open that very in-root file or be rejected, never leak',
     'a query containing a backslash has two admissible readings (srctools: separator; POSIX: name character); '
     'RootEscapeError is demanded/forbidden only when both readings agree, leaking is forbidden under both',
@@ -73,7 +75,10 @@ LEVEL_NOTE = ('Trusts the harness resolver (cross-checked against os.path.realpa
 CAPS = (300, 2400)
 
 # mixed case, so that lower/upper/swapcase give three different sibling names on this case-sensitive host
-ROOT_NAMES = ['Root', 'rX', 'Hl2.x', 'Game Dir', 'Portal2_DLC1']
+ROOT_NAMES = ['Root', 'rX', 'Hl2.x', 'Game Dir', 'Portal2_DLC1',
+              # legal directory names that are also shell-pattern syntax ('[', ']', '?', '*'); the tree then holds a
+              # sibling directory whose name the root's name matches when it is read as a pattern (glob_twin)
+              'Game[2]', 'Mod [Beta]', 'Maps?', 'Add*on']
 SIB_SUFFIXES = ['2', '_old', '.bak']
 ROOT_FORMS = ['abs', 'abs_slash', 'abs_dot', 'abs_dotdot', 'abs_dblslash_mid', 'rel', 'rel_slash', 'rel_dot',
               'rel_up', 'pathlib']
@@ -94,7 +99,7 @@ SIBLING_FILES = ['secret.txt', 'sub/b.txt', 'a.txt', 'notes.txt']
 SEG_DOTS = ['..', '..', '..', '.', '']
 SEG_INSIDE = ['a.txt', 'secret.txt', 'sub', 'b.txt', 'deep', 'c.txt', '@r', 'inner.txt', 'x.txt', 'd.txt', 'notes.txt', 'dir',
               'wait...wav', 'notes..old.txt', 'v1..v2', '..a', 'a..', '...', 'deep.txt']
-SEG_SIB = ['@r2', '@r_old', '@r.bak', 'other', '@r2.txt', '@rl', '@ru', '@rs', '@rl2']
+SEG_SIB = ['@r2', '@r_old', '@r.bak', 'other', '@r2.txt', '@rl', '@ru', '@rs', '@rl2', '@rg']
 SEG_ABOVE = ['@base', 'base.txt', 'top.txt', 'missing', '@basev']
 SEG_ABS = ['@ABS_ROOT', '@ABS_BASE', '@ABS_SIB2', '@ABS_SIBOLD', '@ABS_SCRATCH', '@ABS_SLASH']
 
@@ -129,7 +134,7 @@ def query_strategy():
     )
     absolute = st.tuples(
         st.sampled_from(['@ABS_ROOT', '@ABS_ROOT', '@ABS_BASE', '@ABS_SIB2', '@ABS_SIB2', '@ABS_SIBOLD',
-                         '@ABS_SCRATCH', '@ABS_SLASH', '@ABS_SIBL', '@ABS_SIBU', '@ABS_BASEV', '@ABS_BASEV_ROOT']),
+                         '@ABS_SCRATCH', '@ABS_SLASH', '@ABS_SIBL', '@ABS_SIBU', '@ABS_BASEV', '@ABS_BASEV_ROOT', '@ABS_SIBG']),
         free,
     ).map(lambda t: [t[0]] + t[1])
     # climb out of a few existing folders, then name something next to the root
@@ -192,6 +197,33 @@ def case_strategy(chain: bool):
 # ------------------------------------------------------------------------------------------------
 # the scratch tree and the ground truth
 
+def glob_twin(name: str):
+    """For a name containing shell-pattern characters: another name that the pattern `name` matches (a sibling
+    directory reached if the root's name is ever interpreted as a pattern); None for ordinary names."""
+    import fnmatch
+    out = []
+    i = 0
+    while i < len(name):
+        c = name[i]
+        j = name.find(']', i + 2) if c == '[' else -1
+        if c == '?':
+            out.append('x')
+        elif c == '*':
+            out.append('_x')
+        elif j > 0:
+            out.append(name[i + 1])
+            i = j
+        else:
+            out.append(c)
+        i += 1
+    twin = ''.join(out)
+    if twin == name:
+        return None
+    if not fnmatch.fnmatchcase(twin, name):
+        raise HarnessError(f'glob_twin: {twin!r} does not match pattern {name!r}')
+    return twin
+
+
 def lexical(path: str) -> str:
     """Own lexical resolver for an absolute '/'-separated path (no symlinks in the tree)."""
     stack: list[str] = []
@@ -243,6 +275,12 @@ class Tree:
         })
         self.case_siblings = [n for n in dict.fromkeys([rn.lower(), rn.upper(), rn.swapcase(), rn.lower() + '2'])
                               if n != rn]
+        # the root's name read as a shell pattern matches this other directory
+        self.glob_sibling = glob_twin(rn)
+        if self.glob_sibling is not None:
+            self.case_siblings.append(self.glob_sibling)
+        self.sym['@rg'] = self.glob_sibling or rn + '2'
+        self.sym['@ABS_SIBG'] = self.base + '/' + self.sym['@rg']
 
     def expand(self, symbolic: str) -> str:
         return '/'.join('\\'.join(self.sym.get(x, x) for x in part.split('\\')) for part in symbolic.split('/'))
@@ -707,6 +745,8 @@ def execute_generic(desc, ctx, mode: str) -> None:
         ctx.check(lexical(fs.path) == tree.root, 'root_path', f'fs.path={fs.path!r}, root given as {desc["root_form"]} '
                   f'of {tree.root!r}')
         ctx.label('root_form:' + desc['root_form'])
+        if tree.glob_sibling is not None:
+            ctx.label('root_name:pattern_chars_with_matching_sibling')
         twin_kinds = list(desc.get('twins', []))
         twin_mode = desc.get('twin_mode', 'first')
         twins = []
@@ -833,7 +873,7 @@ def execute_chain(desc, ctx):
     execute_generic(desc, ctx, 'chain')
 
 
-_ROUTES = ('cwd:moved_with_relative_root', 'maker:get_filesystem', 'name:consecutive_dots_inside', 'disk_name:backslash_dotdot', 'handle:rejected', 'handle:opened', 'construct:before_root_exists', 'construct:before_root', 'construct:before_tree', 'construct:after',
+_ROUTES = ('root_name:pattern_chars_with_matching_sibling', 'cwd:moved_with_relative_root', 'maker:get_filesystem', 'name:consecutive_dots_inside', 'disk_name:backslash_dotdot', 'handle:rejected', 'handle:opened', 'construct:before_root_exists', 'construct:before_root', 'construct:before_tree', 'construct:after',
            'escape:case_variant_sibling', 'escape:case_variant_ancestor', 'twin:unconstrained_first', 'twin:none', 'twin:constrained2', 'twin:respelled', 'route:dotdot:sibling_ext', 'route:abs:sibling_ext', 'route:dotdot:ancestor', 'route:dotdot:base_entry',
            'route:dotdot:sibling_other', 'route:with_backslash', 'target:inside', 'target:outside')
 
